@@ -350,6 +350,9 @@ func extractFacts(args []string) {
 	for _, e := range o.errs {
 		fmt.Fprintln(os.Stderr, "fact missing:", e)
 	}
+	if *out != "" {
+		extractUnicode(filepath.Join(filepath.Dir(*out), "Unicode.lean"))
+	}
 }
 
 func callName(e ast.Expr) string {
